@@ -480,3 +480,18 @@ func init() {
 		}, func(e value) value { return e })
 	}
 }
+
+func init() {
+	// runtime.NewScheme names itself after its caller by walking the stack
+	externals["k8s.io/apimachinery/pkg/util/naming.GetNameFromCallsite"] = func(fr *frame, args []value) value {
+		return "gosym"
+	}
+}
+
+func init() {
+	// Scheme registration is reflection-heavy and the engine does not use the
+	// scheme's content (typed decoding is structural, see intr_parser.go).
+	externals["(*k8s.io/apimachinery/pkg/runtime.SchemeBuilder).AddToScheme"] = func(fr *frame, args []value) value {
+		return iface{}
+	}
+}
